@@ -309,14 +309,14 @@ def from_tlc(rng, cfgname, hist):
 # Directed schedules: park one committer at each gate inside WriteTxn/Commit/Abort, run every other
 # actor as far as it gets (to completion or until it blocks), then let the first one finish.
 
-GATES = ["wtxn.begin", "smu", "wtxn.locked", "wtxn.rootloaded", "commit.begin", "commit.indexes", "commit.rootlocked",
+GATES = ["wtxn.begin", "smu", "wtxn.locked", "wtxn.rootloaded", "commit.begin", "commit.indexes", "commit.rootlocked", "commit.rootbuilt",
          "commit.stored", "commit.rootunlocked", "commit.notified", "commit.tablesunlocked", "commit.initclosed"]
 
 
 def steps_to(gate, ntab):
     """Number of releases that bring a fresh writer over ntab distinct tables to `gate`."""
     order = ["wtxn.begin"] + ["smu"] * ntab + ["wtxn.locked", "wtxn.rootloaded", "commit.begin", "commit.indexes",
-                                              "commit.rootlocked", "commit.stored", "commit.rootunlocked",
+                                              "commit.rootlocked", "commit.rootbuilt", "commit.stored", "commit.rootunlocked",
                                               "commit.notified", "commit.tablesunlocked", "commit.initclosed"]
     if gate == "smu":
         return 2
@@ -435,7 +435,7 @@ def gen_iterwindow(rng):
         i_prog.append(dict(op="next", it=it, src={"kind": "snap", "id": g.nsnap},
                            take=-1 if j != 1 or rng.random() < 0.6 else rng.randint(0, 1), w=g.chan()))
     actors = [dict(name="A", prog=a_prog), dict(name="I", prog=i_prog)]
-    gate = rng.choice(["commit.rootlocked", "commit.stored", "commit.stored", "commit.rootunlocked", "commit.notified",
+    gate = rng.choice(["commit.rootlocked", "commit.rootbuilt", "commit.stored", "commit.stored", "commit.rootunlocked", "commit.notified",
                        "commit.tablesunlocked"])
     sched = ["A"] * steps_to(gate, len(a_tabs)) + ["I"] * rng.choice([2, 4, 4]) + ["A"] * rng.choice([1, 2, 20]) \
         + ["I"] * 10 + ["A"] * 20
@@ -477,7 +477,11 @@ def gen_manytables(rng):
     def prog(tabs, marker):
         g.ntx += 1
         tx = g.ntx
-        p = [dict(op="wtxn", tx=tx, tables=list(tabs))]
+        req = list(tabs)
+        if rng.random() < 0.5:
+            req = req + [rng.choice(req)]          # the same table named twice, also at positions >= 64
+            rng.shuffle(req)
+        p = [dict(op="wtxn", tx=tx, tables=req)]
         for t in sorted(set(tabs)):
             p.append(dict(op="insert", tx=tx, t=t, obj=simple_obj(g, 2 + marker, marker + 1), guard=0, gsym="", w=0))
         g.nsnap += 1
